@@ -1,4 +1,5 @@
 import CssVerif.Model.ValidateReg
+import CssVerif.Model.ValueText
 /-!
 Driver for C13. Requests (strings are dotted hex, `-` = empty):
 
@@ -9,6 +10,10 @@ Driver for C13. Requests (strings are dotted hex, `-` = empty):
 * `sheet <default> <validOnly 0|1> <token>…`           → `ok <sheet.valid> <per rule: 1|0|-> <all declarations valid> <kept>` | `KeyError <name>`
 * `ser <default> <fontface 0|1> <validOnly 0|1> <d/…>…` → one `1` (written) / `0` (dropped) per declaration
 * `flag <sheet N|0|1> <decl N|0|1>`                    → `0|1`
+* `vt <lv> <spacer> <listItemSpacer> <lineSeparator> <propertyNameSpacer> <paranthesisSpacer> <selectorCombinatorSpacer>
+  <indent> <keepComments><minimizeColorHash><indentClosingBrace> <tok>…` → `bad` (value refused) |
+  `ok <items> <Property.value>`; tokens: `S`, `C/<text>`, `O/<code point>`, `T/<type>/<cssText>/<wf 0|1>`, `E` (`;`),
+  `I` (INVALID), `X` (other); items: `c:<text>`, `o:<code point>`, `t:<type>:<cssText>` joined by `,` (`E` = none)
 
 `<default>`/`<profiles>`: `N` (None), `E` (empty list) or comma-separated names.
 sheet tokens: `s(` `f(` `m(` `p(` `g(` open a style / @font-face / @media / @page rule / margin block, `)` closes,
@@ -87,6 +92,42 @@ def showRule (reg : Registry Re) (r : Rule) : String :=
   | some (.ok b) => b01 b
   | some (.error _) => "E"
 
+def decVTok (w : String) : Option ValueText.VTok :=
+  match w.splitOn "/" with
+  | ["S"] => some .s
+  | ["E"] => some .semi
+  | ["I"] => some .invalid
+  | ["X"] => some .other
+  | ["C", t] => (decCps t).map .comment
+  | ["O", c] => match c.toNat? with
+    | some n => if n == 44 || n == 47 then some (.op n) else none
+    | none => none
+  | ["T", ty, tx, wf] => match decCps ty, decCps tx with
+    | some ty, some tx => if wf == "1" || wf == "0" then some (.term { ty := ty, text := tx, wf := wf == "1" }) else none
+    | _, _ => none
+  | _ => none
+
+def decVToks : List String → Option (List ValueText.VTok)
+  | [] => some []
+  | w :: r => match decVTok w, decVToks r with
+    | some t, some l => some (t :: l)
+    | _, _ => none
+
+def showSItem : ValueText.SItem → String
+  | .comment t => "c:" ++ encCps t
+  | .op c => "o:" ++ toString c
+  | .term x => "t:" ++ encCps x.ty ++ ":" ++ encCps x.text
+
+/-- the preferences `Out.append` reads; the others do not reach a value (set to the `useDefaults` values) -/
+def vtPrefs (spacer lis ls pns ps scs indent : Str) (kc mch icb : Bool) : Out.Prefs :=
+  { defaultAtKeyword := true, defaultPropertyName := true, defaultPropertyPriority := true, importHrefFormat := none,
+    indent := indent, indentClosingBrace := icb, indentSpecificities := false, keepAllProperties := true,
+    keepComments := kc, keepEmptyRules := false, keepUnknownAtRules := true, keepUsedNamespaceRulesOnly := false,
+    lineNumbers := false, lineSeparator := ls, listItemSpacer := lis, minimizeColorHash := mch,
+    normalizedVarNames := true, omitLastSemicolon := true, omitLeadingZero := false, paranthesisSpacer := ps,
+    propertyNameSpacer := pns, resolveVariables := true, selectorCombinatorSpacer := scs, spacer := spacer,
+    validOnly := false }
+
 def handle (line : String) : String :=
   match words line with
   | ["acc", pi, n, v] => match pi.toNat?, decCps n, decCps v with
@@ -137,6 +178,19 @@ def handle (line : String) : String :=
             | none => "bad-op"
         go toks ""
       | none => "bad-op"
+  | "vt" :: lv :: sp :: lis :: ls :: pns :: ps :: scs :: ind :: fl :: toks =>
+      match lv.toNat?, decCps sp, decCps lis, decCps ls, decCps pns, decCps ps, decCps scs, decCps ind, decVToks toks with
+      | some lv, some sp, some lis, some ls, some pns, some ps, some scs, some ind, some ts =>
+        match fl.toList with
+        | [a, b, c] =>
+          if !([a, b, c].all fun x => x == '0' || x == '1') then "bad-op" else
+          let p := vtPrefs sp lis ls pns ps scs ind (a == '1') (b == '1') (c == '1')
+          match ValueText.parseValue ts with
+          | none => "bad"
+          | some seq => "ok " ++ (if seq.isEmpty then "E" else ",".intercalate (seq.map showSItem)) ++ " " ++
+              encCps (ValueText.valueText p lv seq)
+        | _ => "bad-op"
+      | _, _, _, _, _, _, _, _, _ => "bad-op"
   | ["flag", s, d] =>
       let dec (w : String) : Option (Option Bool) :=
         if w == "N" then some none else if w == "0" then some (some false) else if w == "1" then some (some true) else none
